@@ -685,7 +685,11 @@ fn serde_rename(attrs: &[syn::Attribute]) -> Option<String> {
     get_name_value_meta_items(attrs, "rename", SERDE).next()
 }
 
-/// Parses any comment out of the given slice of attributes
+/// Parses any comment out of the given slice of attributes.
+///
+/// A doc string that spans several lines (a block doc comment, or a
+/// `#[doc = "..."]` attribute with line breaks) yields one comment per line,
+/// so that the language back ends only ever see single-line comments.
 fn parse_comment_attrs(attrs: &[Attribute]) -> Vec<String> {
     attrs
         .iter()
@@ -696,6 +700,16 @@ fn parse_comment_attrs(attrs: &[Attribute]) -> Vec<String> {
             }
             _ => None,
         })
+        .flat_map(|doc| split_comment_lines(&doc))
+        .collect()
+}
+
+/// Splits a doc string at its line breaks (`\n`, `\r\n` or a lone `\r`) and
+/// trims every line.
+fn split_comment_lines(doc: &str) -> Vec<String> {
+    doc.replace("\r\n", "\n")
+        .split(['\n', '\r'])
+        .map(|line| line.trim().to_string())
         .collect()
 }
 
